@@ -48,7 +48,10 @@ MANIFEST = {
     'category': 'model_checking',
     'technique': 'AST-extracted line classifier of the real reader and '
                  'AST-extracted count/format expressions of the real writer '
-                 'evaluated on symbolic counts and codes; SMT validity; '
+                 'evaluated on symbolic counts and codes; index-map '
+                 'interpretation of the reader data section / writer row '
+                 'loop with a symbolic record count; l100.isMine executed '
+                 'symbolically on a file of symbolic length; SMT validity; '
                  'replay by writing and re-reading a real file',
     'text': 'Bounded symbolic checking of two kernels of the ICARTT round '
             'trip: (L1) for ANY number of dependent variables d >= 1 and '
@@ -61,7 +64,11 @@ MANIFEST = {
             'variables quick, up to 6 thorough) record r of variable c is '
             'written to line r, column c and read back into cell r of '
             'variable c, with POINTS == n (index-map model of the shape-only '
-            'numpy calls between text and variables).',
+            'numpy calls between text and variables); (L4) for every output '
+            'length of 17..400 lines the position-based text reader asked '
+            'before ffi1001 (noaafiles.l100.isMine, run whole on a file of '
+            'symbolic length) does not claim the file, and the replayed '
+            'pncopen auto-detects ffi1001.',
     'note': 'Trusted: z3, the decimal-rounding model of printf, the shape '
             'contract of numpy.genfromtxt. Data values are outside.',
 }
@@ -944,9 +951,131 @@ def _symlen_any(x):
     return len(x)
 
 
+# ---------------------------------------------------------------------------
+# L4: auto-detection -- the text reader that is asked before ffi1001 and
+# looks at line positions (noaafiles l100) must not claim the writer's output
+# ---------------------------------------------------------------------------
+class _IctLine(str):
+    """a line of an ICARTT file the writer produced: never starts with the
+    sounding format's 'Level', carries none of its column names"""
+
+    def __new__(cls):
+        return str.__new__(cls, '1, 1\n')
+
+
+class _SymFile(object):
+    def __init__(self, nlines):
+        self.nlines, self.pos = nlines, 0
+
+    def readline(self):
+        ctx = symx.cur()
+        i = self.pos
+        self.pos += 1
+        if ctx.branch(z3.IntVal(i) < self.nlines.e):
+            return _IctLine()
+        return ''
+
+    def close(self):
+        pass
+
+    def __enter__(self):
+        return self
+
+    def __exit__(self, *a):
+        return False
+
+
+class AutoDetect(Obligation):
+    encoding_fragile = True
+    name = 'autodetect[l100.isMine on L lines]'
+    LMAX = 400
+    bounds = {'lines in the file L': '17..%d (1 dependent variable, no '
+              'attributes, one record is the shortest output)' % 400}
+    mode = 'int'
+    validate_paths = 4
+    max_paths = 400
+    stubs = ('open(): a text file of L lines none of which starts with '
+             "'Level' (the writer's header and data lines)",)
+
+    def fallback_inputs(self):
+        return [{'L': 17}, {'L': 27}, {'L': 28}, {'L': 60}]
+
+    def sym(self, ctx, h):
+        sp = loader.TwinSpace()
+        L = ctx.int('L', 17, self.LMAX)
+        sp.builtins['open'] = lambda *a, **k: _SymFile(L)
+        M = sp.twin('PseudoNetCDF.noaafiles._l100')
+        self._space = sp
+        got = M.l100.isMine('x.ict')
+        if isinstance(got, symx.SymBool):
+            got = bool(got)
+        h.observe('l100_claims', bool(got))
+        h.claim('not-claimed-by-l100', not got)
+
+    def real(self, inputs):
+        import warnings
+        L = max(17, min(int(frac_of(inputs.get('L', 17))), 400))
+        # L = 15 + d + a header lines + n records, d = 1
+        a = 0
+        n = L - 16
+        if n > 40:
+            a = min(n - 40, 100)
+            n = L - 16 - a
+        viol = {}
+        tmp = tempfile.mkdtemp(prefix='verif_c19_')
+        path = os.path.join(tmp, 'a.ict')
+        claims = None
+        try:
+            with warnings.catch_warnings():
+                warnings.simplefilter('ignore')
+                from PseudoNetCDF import PseudoNetCDFFile, pncopen
+                from PseudoNetCDF.icarttfiles.ffi1001 import ffi1001, \
+                    ncf2ffi1001
+                from PseudoNetCDF.noaafiles import l100
+                f = PseudoNetCDFFile()
+                f.createDimension('POINTS', n)
+                t = f.createVariable('Start_UTC', 'd', ('POINTS',))
+                t[:] = [60. * i for i in range(n)]
+                t.units = 's'
+                x = f.createVariable('X_ppb', 'd', ('POINTS',))
+                x[:] = [0.5 + i for i in range(n)]
+                x.units = 'ppb'
+                x.missing_value = -9999
+                f.SDATE = '2004, 01, 10,'
+                f.WDATE = '2004, 01, 11'
+                f.INDEPENDENT_VARIABLE = 'Start_UTC'
+                for i in range(a):
+                    setattr(f, 'ATTR%d' % i, 'value %d' % i)
+                ncf2ffi1001(f, path).close()
+                nl = len(open(path).read().rstrip('\n').split('\n'))
+                if nl != L:
+                    return {'obs': None, 'violations': {},
+                            'note': 'file has %d lines' % nl}
+                claims = bool(l100.isMine(path))
+                try:
+                    g = pncopen(path)
+                    if not isinstance(g, ffi1001):
+                        viol['not-claimed-by-l100'] = \
+                            '%d-line output opened as %s' % (
+                                L, type(g).__name__)
+                    elif g.variables['X_ppb'].shape != (n,):
+                        viol['not-claimed-by-l100'] = 'shape'
+                except Exception as ex:
+                    viol['not-claimed-by-l100'] = \
+                        '%d-line output: auto-detected open raised %s' % (
+                            L, repr(ex)[:160])
+        finally:
+            for fn in os.listdir(tmp):
+                os.remove(os.path.join(tmp, fn))
+            os.rmdir(tmp)
+        return {'obs': {'l100_claims': claims}, 'violations': viol, 'L': L}
+
+    any_violation_confirms = True
+
+
 def obligations(tier):
     vs = (2, 3) if tier == 'quick' else (2, 3, 4, 6)
-    return [Layout(), MissingCode()] + [RecordTable(v) for v in vs]
+    return [Layout(), MissingCode()] + [RecordTable(v) for v in vs] + [AutoDetect()]
 
 
 def region_over7(inputs):
